@@ -32,7 +32,7 @@ theorem Extends.trans {a b c : XS} (h1 : Extends a b) (h2 : Extends b c) : Exten
 theorem newInternal_of_eq {a b : XS} {l : List String} (h : b.iq = a.iq ++ l) : newInternal a b = l := by
   simp [newInternal, h]
 
-theorem emit_iq (x : XS) (o : String) : (x.emit o).iq = x.iq := rfl
+theorem emit_iq (x : XS) (o : Tok) : (x.emit o).iq = x.iq := rfl
 theorem raise_iq (x : XS) (e : String) : (x.raise e).iq = x.iq ++ [e] := rfl
 theorem sendExt_iq (x : XS) (e : String) : (x.sendExt e).iq = x.iq := rfl
 
@@ -119,10 +119,10 @@ theorem exec_spec (c : Chart) (cfg : List Nat) : ∀ (e : Exec) (x : XS),
     exact ⟨⟨[], by simp [emit_iq]⟩, by intro h; cases h⟩
   | .ite uv cond children, x => by
     simp only [exec]
-    have hc := evalCond_extends c cfg (x.emit s!"bc:{uv}") cond
-    have hi := execIf_spec c cfg children (evalCond c cfg (x.emit s!"bc:{uv}") cond).2
-      (evalCond c cfg (x.emit s!"bc:{uv}") cond).1
-    have h0 : Extends x (x.emit s!"bc:{uv}") := ⟨[], by simp [emit_iq]⟩
+    have hc := evalCond_extends c cfg (x.emit (.bc uv)) cond
+    have hi := execIf_spec c cfg children (evalCond c cfg (x.emit (.bc uv)) cond).2
+      (evalCond c cfg (x.emit (.bc uv)) cond).1
+    have h0 : Extends x (x.emit (.bc uv)) := ⟨[], by simp [emit_iq]⟩
     refine ⟨?_, ?_⟩
     · have := Extends.trans h0 (Extends.trans hc hi.1)
       obtain ⟨l, hl⟩ := this
